@@ -40,7 +40,8 @@ def agg_nodes(ctx, e, path=()):
 
 def unknown_tags(cls, rng):
     spec = set(cls.spec)
-    cand = ["FOO", "ZZTOP", "STATUS", "CODE", "SEVERITY", "STMTTRN", "BANKACCTFROM", "MEMO", "NAME", "DTPOSTED", "X9"]
+    cand = ["FOO", "ZZTOP", "STATUS", "CODE", "SEVERITY", "STMTTRN", "BANKACCTFROM", "MEMO", "NAME", "DTPOSTED", "X9",
+            "3RDPARTY", "2NDPRESENTMENT", "9", "_X", "A_B"]       # tags need not start with a letter
     # names that mean something to Python on the class (methods and properties of Aggregate / list / object): still unknown TAGS
     pyattrs = [a.upper() for a in dir(cls) if a.isidentifier() and not a.startswith("_") and a.upper().isalnum()]
     cand += rng.sample(pyattrs, min(6, len(pyattrs)))
@@ -67,8 +68,8 @@ def make_insert(kind, tag, rng, known_children=()):
                 ET.SubElement(e, t).text = "9"
         return e
     if kind == "vendor-data":
-        e = ET.Element(rng.choice(["INTU.BID", "INTU.USERID", "X.Y", "CODE.X"])); e.text = "12345"; return e
-    e = ET.Element(rng.choice(["INTU.AGG", "FOO.BAR"]))
+        e = ET.Element(rng.choice(["INTU.BID", "INTU.USERID", "X.Y", "CODE.X", "401K.BAL"])); e.text = "12345"; return e
+    e = ET.Element(rng.choice(["INTU.AGG", "FOO.BAR", "401K.DETAIL", "1ST.SOURCE"]))
     ET.SubElement(e, "CODE").text = "7"
     for t in known_children[:1]:
         ET.SubElement(e, t).text = "9"
